@@ -640,8 +640,11 @@ def check_property(pid, tier, seed):
             basis_fail = []
             for r in results:
                 fprops = {f["id"]: f["props"] for f in r["meta"]["functions"]}
+                # functions this property's proofs may rely on: those that list it, and everything they (transitively)
+                # call inside the unit (call graph read off the generated file by name: an over-approximation)
+                reach = call_closure(r["meta"], r["rs"], [f["id"] for f in r["meta"]["functions"] if pid in f["props"]])
                 for f in r["failures"]:
-                    if pid not in f["props"] and pid in fprops.get(f["fn"] or "", []):
+                    if pid not in f["props"] and ((f["fn"] or "") in reach or pid in fprops.get(f["fn"] or "", [])):
                         basis_fail.append(f)
             if basis_fail:
                 cov["failed_clauses_of_other_properties_in_functions_this_proof_relies_on"] = sorted(set("%s (%s)" % (f["label"], ",".join(f["props"])) for f in basis_fail))
@@ -883,6 +886,42 @@ def env_seed():
         return int(v, 0) % (1 << 64)
     except ValueError:
         return int(hashlib.sha256(v.encode()).hexdigest()[:16], 16)
+
+
+def call_closure(meta, rs_path, roots):
+    """ids of the unit's extracted functions reachable from `roots` through calls.  Calls are read off the generated
+    file by name - `Type::name(`, `Self::name(` inside the same impl, `.name(` on any receiver - an over-approximation"""
+    try:
+        lines = open(rs_path).read().split("\n")
+    except OSError:
+        return set(roots)
+    fns = meta["functions"]
+    def tyname(f):
+        h = f["impl"]
+        h = h.split(" for ")[-1] if " for " in h else h
+        h = re.sub(r"^impl(<[^>]*>)?\s*", "", h)
+        return re.split(r"[<\s]", h.strip())[0]
+    body = {f["id"]: "\n".join(lines[f["gen_start"] - 1:f["gen_end"]]) for f in fns}
+    calls = {}
+    for f in fns:
+        hit = set()
+        for g in fns:
+            if g["id"] == f["id"]:
+                continue
+            nm = re.escape(g.get("gen_name") or g["name"])
+            pats = [r"(?<![A-Za-z0-9_])%s::%s\s*\(" % (re.escape(tyname(g)), nm), r"\.%s\s*\(" % nm]
+            if tyname(g) == tyname(f):
+                pats.append(r"(?<![A-Za-z0-9_])Self::%s\s*\(" % nm)
+            if any(re.search(p, body[f["id"]]) for p in pats):
+                hit.add(g["id"])
+        calls[f["id"]] = hit
+    seen, todo = set(roots), list(roots)
+    while todo:
+        x = todo.pop()
+        for y in calls.get(x, ()):
+            if y not in seen:
+                seen.add(y); todo.append(y)
+    return seen
 
 
 def find_witness(pid, deep=True):
